@@ -171,7 +171,7 @@ package hessian
 //@   loop 1 invariant [C09:str-chunk-bounds] 0 <= begin && begin + length == len(dataBys) && begin & 2047 == 0 && length >= 1
 //@   loop 1 invariant [C09:str-chunk-stream] bufof(byteBuf) == G.strChunksTo(runes(value), begin)
 //@   loop 1 decreases length
-//@   ensures [C09,C02:str-empty-null]        value == "" ==> len(result) == 1 && result[0] == 'N'
+//@   ensures [C09,C02:str-empty]             value == "" ==> len(result) == 1 && result[0] == 0x00
 //@   ensures [C09,C02,C01:str-production]   value != "" ==> streamOf(result) == G.strProd(runes(value))
 
 //@ func encodeBinary
